@@ -334,9 +334,26 @@ class ExprGen:
 
     # ----------------------------------------------------------------- grammar
     def primary(self, d):
-        if d <= 0 or self.r.random() < 0.55:
-            return self.leaf(d)
-        return ("par", self.expr(d - 1))
+        r = self.r
+        memo = self.__dict__.setdefault("_memo", [])
+        if memo and r.random() < 0.07:
+            # deliberately repeated sub-expression, with or without extra parentheses
+            e = r.choice(memo)
+            c = r.random()
+            if c < 0.4:
+                return e
+            if c < 0.8:
+                return ("par", e) if e[0] != "par" else e[1] if e[1][0] in ("leaf", "par") else e
+            return ("par", ("par", e[1])) if e[0] == "par" else ("par", e)
+        if d <= 0 or r.random() < 0.55:
+            e = self.leaf(d)
+        else:
+            e = ("par", self.expr(d - 1))
+        if len(memo) > 6:
+            memo.pop(0)
+        if e[0] == "par" or ("'" in e[1] or '"' in e[1] or "(" in e[1]):
+            memo.append(e)
+        return e
 
     def level1(self, d):
         p = self.primary(d)
